@@ -306,6 +306,15 @@ class SolverShape:
             atoms = set(c.expr.terms)
             if atoms == {self.counter, 'min_iter'}:
                 cands.append((n, c))
+        if not cands:
+            # the comparison as one conjunct / disjunct of a compound test
+            for n in self.tests():
+                if not self.in_loop(n) or not isinstance(n.ast, ast.BoolOp):
+                    continue
+                for v in n.ast.values:
+                    c = cmp_of(v)
+                    if c is not None and set(c.expr.terms) == {self.counter, 'min_iter'}:
+                        cands.append((n, c))
         if len(cands) != 1:
             raise AnchorMissing(f'{self.q}: min_iter gate: found {len(cands)} comparisons of the pass counter with min_iter')
         return cands[0]
@@ -432,6 +441,48 @@ def is_normalised_position(shape: SolverShape, nid: int, name: str, src: str = '
         return False
     len_span = ('len(self.span)', "len(self.__dict__['span'])")
     return a_f == affine(expr(src)) and any(a_t == affine(expr(f'{src} + {ls}')) for ls in len_span)
+
+
+class FnView:
+    """Flow graph, reaching definitions and gated values of any function (what `is_normalised_position` and
+    `offset_source_index` need), without the pass-loop anchors of SolverShape."""
+
+    def __init__(self, repo: Repo, qualname: str, cfg: Optional[CFG] = None) -> None:
+        self.repo = repo
+        self.fi = repo.func(qualname)
+        self.q = qualname
+        self.cfg = cfg if cfg is not None else CFG(self.fi.node, fsic_hierarchy(repo))
+        self.lf = LocalFlow(self.cfg, self.fi.params())
+
+    sym = SolverShape.sym
+    value_at = SolverShape.value_at
+
+    def node_of(self, x: ast.AST):
+        for n in self.cfg.nodes:
+            if n.ast is not None and n.kind in ('stmt', 'test', 'for') and any(y is x for y in ast.walk(n.ast)):
+                return n
+        return None
+
+
+def offset_source_index(view, nid: int, idx: ast.AST, src: str = 't') -> bool:
+    """Does `idx`, read at node `nid`, address the period `offset` away from the one being solved?  `t + offset`, or
+    `P + offset` with P the normalised (non-negative) position of `t`: inside the span - which the two range checks
+    in front of the copy establish (C02.R2) - both name the same element."""
+    try:
+        a = affine(idx)
+    except Exception:
+        a = None
+    if a is not None and a == affine(expr(f'{src} + offset')):
+        return True
+    all_pos = [k for k in sorted(view.lf.locals) if is_normalised_position(view, nid, k, src)]
+    if not all_pos:
+        return False
+    try:
+        e = view.value_at(nid, idx, keep=tuple(all_pos))
+        a = affine(e)
+    except Exception:
+        return False
+    return a is not None and any(a == affine(expr(f'{k} + offset')) for k in all_pos)
 
 
 # ---------------------------------------------------------------------------
